@@ -151,6 +151,8 @@ def build_inputs(ctx, res):
         inputs.append(("planted", g1.planted(rng, n=rng.randint(10, ctx.pick(160, 400)))))
     for _ in range(ctx.pick(800, 10000)):
         inputs.append(("dense", g1.small_dense(rng)))
+    for _ in range(ctx.pick(800, 10000)):
+        inputs.append(("tight", g1.tight(rng)))
     for k in list(range(2, 31, ctx.pick(4, 1))) + [30, 31]:
         inputs.append(("ladder%d" % k, g1.ladder(k, stemlen=rng.randint(1, 2), gap=rng.randint(0, 1))))
     return inputs
@@ -263,6 +265,31 @@ def run(ctx):
         res.sample({"family": tag, "seq": c[0][:40], "pairs": c[1][:40],
                     "opt": o["opt"][1][:40] if o["opt"][0] == "ok" else o["opt"]})
 
+    # ---- every dot-bracket the library produces includes those produced when the solver misbehaves
+    from corr.c13 import FAULTS, real as real_fault
+    fcases = []
+    knotted = [(tag, c) for (tag, c), (_, _, _, want_opt, _) in zip(inputs, cases)
+               if want_opt and any(x > 1 for x in (component_sizes(c[1]) or []))]
+    rng = ctx.rng
+    for tag, (seq, pairs) in rng.sample(knotted, min(len(knotted), ctx.pick(150, 2000))):
+        fault = rng.choice(FAULTS[1:])
+        cfg = rng.choice(["direct", "cbc", "highs", "none"])
+        fcases.append((seq, pairs, cfg, fault if cfg != "none" else "ok"))
+    fouts = parallel_map(real_fault, fcases)
+    reqs, idx = [], []
+    for fi, ((seq, pairs, cfg, fault), o) in enumerate(zip(fcases, fouts)):
+        res.count("solver-fault:" + (fault if cfg != "none" else "no-solver"))
+        if o["res"][0] == "ok":
+            reqs.append(["ss.lossless", seq, g1.pstr(pairs), o["res"][1]]); idx.append(fi)
+        else:
+            res.fail("spec", "C01:solver-fault:raises:" + o["res"][1], {"seq": seq, "pairs": pairs, "cfg": cfg, "fault": fault},
+                     "asking for the dot-bracket raised %s" % o["res"][1])
+    for fi, r in zip(idx, D.ask(reqs)):
+        seq, pairs, cfg, fault = fcases[fi]
+        if r != "ok":
+            res.fail("spec", "C01:solver-fault:%s" % r, {"seq": seq, "pairs": pairs, "cfg": cfg, "fault": fault},
+                     "dot-bracket produced under solver fault %s/%s is not lossless: %s (%r)" % (cfg, fault, r, fouts[fi]["res"][1]))
+
     # ---- converse direction: balanced dot-bracket -> BPSEQ -> dot-bracket keeps the set of pairs
     rng = ctx.rng
     dbs = []
@@ -312,6 +339,13 @@ def run(ctx):
 def replay(ctx, data):
     """re-run one stored input through implementation, model and spec predicate"""
     inp = data["input"]
+    if "fault" in inp:
+        from corr.c13 import real as real_fault
+        o = real_fault((inp["seq"], inp["pairs"], inp["cfg"], inp["fault"]))
+        print("impl:", o)
+        if o["res"][0] == "ok":
+            print("spec lossless:", ctx.driver.ask1("ss.lossless", inp["seq"], g1.pstr(inp["pairs"]), o["res"][1]))
+        return
     if "structure" in inp:
         o = real_db((inp["seq"], inp["structure"]))
         print("impl:", o)
